@@ -38,6 +38,8 @@ def run(tier, seed, replay=None):
         "net.ParseCIDR yields a 4-byte network address and a contiguous mask (modelled by umask_of p)",
         "Go channel/select semantics as in the gen process model (EvSend/EvSeeDone/EvReturn)",
         "cancellation: 'returns' is measured with a 3 s budget, not proved about wall-clock time",
+        "autoDiscover end to end: probes are observed as TCP connections to loopback addresses (127/8); parsing of the configured strings "
+        "(net.ParseCIDR, skipped entries) is exercised, not modelled; a stalled consumer is sampled at a few pause lengths (up to 10.5 s)",
     ]
     pr = vlib.proof_part(res, PID)
     rc, log = vlib.build_oracle("c16")
@@ -74,10 +76,45 @@ def run(tier, seed, replay=None):
         for a in bs[:6]:
             for p in range(2, 33):
                 cases.append(("cancel %s/%d" % (ip_s(a), p), [], "cancel", a, p))
-        # hand-built IPNets whose IP field keeps host bits (ipGenerator must mask itself)
+        # hand-built IPNets whose IP field keeps host bits (ipGenerator must mask itself), in the
+        # 4-byte and in Go's 16-byte representation of an IPv4 address
         for a in bs:
             for p in range(20, 33):
                 cases.append(("rawgen %s %d" % (ip_s(a), p), ["rawgen %d %d" % (a, p)], "rawgen", a, p))
+                cases.append(("rawgen16 %s %d" % (ip_s(a), p), ["rawgen %d %d" % (a, p)], "rawgen", a, p))
+        # IPv4 networks written as IPv4-mapped IPv6 CIDRs (autoDiscover accepts them as IPv4)
+        for a in bs[:8]:
+            for p in range(20, 33):
+                cases.append(("gen ::ffff:%s/%d" % (ip_s(a), 96 + p), ["gen %d %d" % (a, p)], "gen", a, p))
+            for p in (31, 32, 24):
+                cases.append(("cancel ::ffff:%s/%d" % (ip_s(a), 96 + p), [], "cancel", a, p))
+        # a consumer that stalls in the middle of the enumeration (longer than any plausible hand-over
+        # timeout): the generator has to wait, every host still arrives exactly once
+        stalls = [(bs[0], 29, 2, 3300), (bs[1], 30, 1, 1200)]
+        if thorough:
+            stalls += [(bs[2], 28, 5, 5500), (bs[3], 29, 1, 10500), (bs[4], 27, 29, 2200), (bs[5], 31, 1, 100)]
+        for a, p, k, ms in stalls:
+            cases.append(("slow %s/%d %d %d" % (ip_s(a), p, k, ms), ["gen %d %d" % (a, p)], "gen", a, p))
+        # autoDiscover itself over several configured subnets (loopback addresses, every probe is
+        # observed by a listener): the union of the enumerations and the logged probe estimate
+        import random
+        rnd = random.Random(seed * 7919 + 16)
+        def lo_net():
+            a = (127 << 24) | (rnd.randrange(1, 255) << 16) | (rnd.randrange(0, 256) << 8) | rnd.randrange(0, 256)
+            return a, rnd.choice([32, 31, 30, 30, 29, 29, 28, 27, 26] + ([25, 24] if thorough else []))
+        for i in range(14 if thorough else 6):
+            k = rnd.choice([1, 2, 2, 3, 3, 4])
+            nets = [lo_net() for _ in range(k)]
+            if i % 3 == 1:
+                nets.append(nets[0])            # the same subnet configured twice
+            words = ["%s/%d" % (ip_s(a), p) for a, p in nets]
+            if i % 3 == 2:                       # one entry as IPv4-mapped CIDR, plus entries autoDiscover skips
+                a, p = nets[-1]
+                words[-1] = "::ffff:%s/%d" % (ip_s(a), 96 + p)
+                words.insert(rnd.randrange(0, len(words) + 1), rnd.choice(["-", "bogus", "::1/128", "10.0.0.1"]))
+            limit = rnd.choice([1, 3, 16, 64, 5000])
+            cases.append(("disc %d %s" % (limit, ",".join(words)),
+                          ["all " + " ".join("%d %d" % n for n in nets)], "disc", len(nets), limit))
         if thorough:
             for a in bs[:1]:
                 for p in (8,):
@@ -101,10 +138,12 @@ def run(tier, seed, replay=None):
         oi += len(oq)
         evals += 1
         dist[kind] = dist.get(kind, 0) + 1
-        if kind != "sz" and p <= 30:
+        if kind == "disc":
+            nontriv.add((kind, req))
+        elif kind != "sz" and p <= 30:
             nontriv.add((kind, a, p))
         expect = None
-        if kind in ("sz", "gen", "sum", "rawgen"):
+        if kind in ("sz", "gen", "sum", "rawgen", "disc"):
             expect = o[0].strip()
         elif kind == "head":
             vals = [x.strip() for x in o if x.strip() != "none"]
@@ -121,6 +160,16 @@ def run(tier, seed, replay=None):
         if kind == "cancel":
             res.violation("cancel-blocks:/%d" % p if p >= 31 else "cancel-blocks:loop",
                           "ipGenerator for %s/%d did not return within 3s after cancellation with no consumer" % (ip_s(a), p), replay_d)
+        elif kind == "disc":
+            gw, ew = g.split(), expect.split()
+            if g.startswith("error") or len(gw) < 2:
+                res.violation("autodiscover-fails", "autoDiscover over %s: %s" % (req.split()[2], g[:300]), replay_d)
+            elif gw[1:] != ew[1:]:
+                res.violation("enum-wrong:autodiscover", "autoDiscover over the subnets %s probed %s addresses, the hosts of those subnets are %s: "
+                              "observed %s" % (req.split()[2], gw[1], ew[1], g[:300]), replay_d)
+            else:
+                res.violation("estimate-wrong:multi", "autoDiscover over the subnets %s logs a probe estimate of %s but enumerates %s addresses"
+                              % (req.split()[2], gw[0], gw[1]), replay_d)
         elif kind == "rawgen":
             got = [int(x) for x in g.split()[1:]] if not g.startswith("error") else None
             if p <= 30 and (got is None or not spec_ok(a, p, got)):
@@ -143,7 +192,7 @@ def run(tier, seed, replay=None):
 
     res.coverage.update(evaluations=evals, distinct_nontrivial=len(nontriv),
                         rule="cases = (base address, prefix) x {full enumeration p>=22, hashed enumeration, first-512 + cancel, cancel with no consumer} "
-                             "+ computeNetSz 0..32; non-trivial iff prefix <= 30 (more than one host); distinct by (kind, address, prefix)",
+                             "+ computeNetSz 0..32 + stalled consumer + autoDiscover over 1-5 loopback subnets (probes observed by a listener, logged estimate); non-trivial iff prefix <= 30 (more than one host); distinct by (kind, address, prefix)",
                         samples=samples, input_distribution=dist, traces_validated_against_impl=evals,
                         trusted_base=res.assumptions)
     return res.finish()
